@@ -1266,7 +1266,7 @@ def gen_cfg(rng, prop, tier):
                  cons=rng.choice([0, 0.2]), enum=0)
     elif prop == "C14":
         w.update(edit=rng.choice([3, 6]), refresh=rng.choice([0.5, 1.5]), enum=rng.choice([1, 2, 3]), cons=rng.choice([0.3, 1, 2]),
-                 copy=rng.choice([0.5, 1.5]), value=0.2, handout=0, pure=rng.choice([0, 0.2]))
+                 copy=rng.choice([0.5, 1.5]), value=0.2, handout=rng.choice([0, 0.3, 0.6]), pure=rng.choice([0, 0.2]))
     elif prop == "C19":
         w.update(handout=rng.choice([2, 4]), pure=rng.choice([2, 4]), copy=rng.choice([1, 3]), cons=rng.choice([0.5, 1.5, 3]), value=0.3,
                  arith=rng.choice([0.5, 2]), update=rng.choice([0, 1, 2]))
